@@ -85,6 +85,18 @@ CHECKS = {
             "exhaustive enumeration of all operation sequences up to length L over stated operation alphabets (symbols of n-ary CDFs with 5 table shapes, bools, literals; adaptation off/on) plus constructed long families (k = 1..4096 repetitions with every prefix/suffix of length <= 2, carry-chain constructions, empty sequence), written with the real writer and read back with the real reader",
             "Every sequence of the four layers (185 operations to length 3, 56 to 4, 16 to 6, 6 to 8; thorough 4/5/8/10) and of the long families round-trips: reader values equal the written ones, reader and writer CDFs equal after every symbol, ceil(svt_od_ec_enc_tell/8) >= bytes emitted, no encoder error (78M sequences quick, 12.8e9 thorough).",
             "reader = the static inline functions of EbDecBitstreamUnit.h / EbDecBitReader.h compiled into the harness; alphabets and lengths bound the claim", "4/C25"),
+    "C18": ("encdrv + hdr_dump (SVT decoder parse) + refdec", "exploration",
+            "bounded-exhaustive enumeration of rate-control mode x QP bounds x qp x fixed-offset patterns x TPL x content x bitrate; base_q_idx of every coded frame read back through the SVT decoder's header parser (libaom-confirmed) and compared with the checker's own quantizer-to-qindex table",
+            "Every listed configuration is encoded (64x64, 17 pictures); each coded frame's base_q_idx must lie within qindex(min)..qindex(max) under rate control and equal clip(qindex(qp)+layer offset) with fixed offsets.",
+            "bounds not demanded for rate control mode 0 (documented as not applicable); dyadic layer structure assumed for hierarchical_levels 3; no 2-pass; preset 8", "4/C18"),
+    "C19": ("encdrv + obu + refdec", "exploration",
+            "exhaustive cross product intra period x refresh type x hierarchical levels x overlays x every stream length N up to 2(P+1)+3; displayed frame types reconstructed by an independent OBU parser with reference-slot tracking; random-access decode from every shown key frame with libaom+dav1d",
+            "For every (P, refresh type, hl 0..4, overlays, N) the display positions carrying intra-coded frames must equal the multiples of P+1 (IDR: shown KEY_FRAMEs), and decoding from each shown-key-frame packet must succeed in both reference decoders and equal the tail of the full decode.",
+            "packet k = display position k (C03); crashing/deadlocking configurations not evaluable (C11/C03); 64x64, preset 8", "4/C19"),
+    "C20": ("encdrv/hdr_enc + hdr_dump (SVT decoder parse + BlockModeInfo walk) + refdec", "exploration",
+            "bounded-exhaustive enumeration of tool switches (off / on) x presets x screen-content mode x contents, and of tile_rows x tile_columns x picture sizes x superblock size; frame-header fields and per-block tool usage read through the SVT decoder's parser (libaom-confirmed); tile oracle = checker's transcription of AV1 tile_info()",
+            "For each of 13 switches the off runs must show no frame-level or block-level use in any coded frame (on runs establish reachability, else VACUOUS); for every requested tiling the signalled tile counts and start positions must equal the spec's uniform-spacing result.",
+            "sequence-header enable flags not demanded; portrait sizes not inspectable (SVT decoder crash); intrabc only with screen_content_mode 1; 8-bit", "4/C20"),
 }
 
 NOT_YET = {}
